@@ -7,6 +7,9 @@ CLAIMED = {
  "C01": ("deterministic simulation: 2-3 scripted peers with identical numbering send generated datagrams over classifier x registered function x ack x destination x role concurrently (reader tasks interleaved, net.dup); the classifier table (DESIGN A.3) prescribes the multiset of replies/results, matched against the outbound traces of all connections",
          "Seeded exploration of datagram sequences over {read, reply, notify, write, call, result} x every function the factory registers for randomly chosen feature types (harvested by reflection) x ackRequest absent/false/true x destination existing/unknown entity/unknown feature x role client/server/special, from several peers after a prefix of binds and data; per handled request the responses written during its handling (on any connection) must be exactly the prescribed ones, reference its counter, be addressed to its source and name the addressed local feature as source; read replies must carry the current data.",
          "Sampling; trusted: instrumenter, synctest, the classifier table A.3 (calibrated row by row against the unchanged tree). Cases the statement leaves open (calls that answer with a reply, node-management side effects of discovery) are decided in C06/C08.", "5/C01"),
+ "C12": ("deterministic simulation on the fake clock: writes pending approval with 1-3 callbacks whose verdict tasks are released in any order and sleep to just before / at / after the timeout while the scheduler also advances the clock mid-operation; per-write oracle over result datagrams, data-change events and callback invocation log (DESIGN A.6)",
+         "Seeded exploration of 1-4 writes pending together on approval-guarded server features (1-3 callbacks, timeouts 100 ms-10 s, one or two peers), per-callback verdicts approve/deny/silent answered at once, after some scheduling, or 1 ms before / exactly at / 1 ms after the timeout, with the approval timer callback as a schedulable task; every handled write must be presented once to every callback and end with exactly one outcome: applied + success result iff all callbacks approved and the last approval returned before the timer fired, error result if not unanimous or the timer finished before the deciding verdict was invoked, either (never both, never none) when they overlap; data-change event iff success.",
+         "Sampling; trusted: instrumenter, synctest fake clock (rules T1-T3), the A.6 classification. In the thorough tier feature_local.go gets statement-level preemption.", "5/C12"),
  "C03": ("deterministic simulation: scripted peers interleave bind/unbind/subscribe/write with conn.drop, conn.restart, peer.entity_remove and net.dup faults; reference binding registry decides per write whether it is authorised; data snapshots, outbound traces and events are the observables",
          "Seeded exploration of interleaved histories of bind, unbind, subscribe, write (from the bound feature, from another feature of the same peer, to read-only functions), disconnect/reconnect and entity removal by 2-3 peers with overlapping numbering against 2-6 local server features; for each delivered write the oracle requires, when unauthorised, unchanged data, no notification, no data-change event and exactly one error result, and when authorised, the data applied, one notify per current subscriber, one event and a success result iff ack.",
          "Sampling; trusted: instrumenter, synctest, registry model (A.5). Writes whose handling overlaps a registry change on their key, or other updates of the same function, are only checked for <=1 result.", "5/C03"),
